@@ -237,7 +237,7 @@ func c18Run(c c18Case) *common.Fail {
 
 var c18Alphabet = []string{
 	"0", "1", "2", "3", "7", "8", "9", "15", "16", "31", "32", "255", "256", "2047", "2048", "65535", "65536",
-	"/", "/", ".", ".", "-", "+", " ", "", "a", "x", "0x1", "1e1", "١", "１", "\t", "00", "01", ",", ":", "99999999999999999999",
+	"/", "/", ".", ".", "-", "+", " ", "", "a", "x", "0x1", "1e1", "\"", "`", "'", "\\x31", "_", "%2F", "\x00", "١", "１", "\t", "00", "01", ",", ":", "99999999999999999999",
 }
 
 // wrapNumeral writes k*2^w + r in decimal: far out of range, but congruent to the in-range r modulo the width of a
@@ -482,6 +482,38 @@ func TestC18(t *testing.T) {
 		}
 	}
 	rec.Exhaustive("every component of every form replaced by k*2^w + r, w in {8,16,31,32,63,64}, k in {1,2,-1}, r in {0,1,hi/2,hi}")
+	// 3b. valid texts in a wrapping: quoted (the three Go literal forms, also with an escaped first character), bracketed,
+	// padded with blanks, NULs, line ends or a byte order mark, percent-encoded separators, a sign, digit separators and
+	// radix prefixes a lenient integer parser would take, other digit scripts. The documented forms are bare decimals.
+	{
+		var texts []string
+		for _, a := range []uint16{1, 0x0801, 0x0a03, 0x1234, 0x7fff, 0x8000, 0xfffe, 0xffff} {
+			g := cemi.GroupAddr(a)
+			texts = append(texts, g.String(), fmt.Sprintf("%d/%d", uint16(g)>>11, uint16(g)&0x7ff), cemi.IndividualAddr(a).String())
+		}
+		full := strings.NewReplacer("0", "\uff10", "1", "\uff11", "2", "\uff12", "3", "\uff13", "4", "\uff14", "5", "\uff15", "6", "\uff16", "7", "\uff17", "8", "\uff18", "9", "\uff19")
+		for _, tx := range texts {
+			first := fmt.Sprintf("\\x%02x", tx[0])
+			wraps := []string{
+				"\"" + tx + "\"", "`" + tx + "`", "'" + tx + "'", "\"" + first + tx[1:] + "\"", "\"" + tx, tx + "\"", "(" + tx + ")", "[" + tx + "]", "<" + tx + ">", "{" + tx + "}",
+				" " + tx, tx + " ", "\t" + tx, tx + "\n", tx + "\r\n", "\x00" + tx, tx + "\x00", "\ufeff" + tx, tx + "\ufeff", "\u00a0" + tx,
+				"+" + tx, "-" + tx, tx + "/", tx + ".", "/" + tx, "." + tx, "0x" + tx, "0b" + tx, "0o" + tx, tx + "e0", tx + "_", "_" + tx,
+				strings.ReplaceAll(tx, "/", "%2F"), strings.ReplaceAll(tx, "/", "\\/"), strings.ReplaceAll(tx, "/", " / "), strings.ReplaceAll(tx, ".", " . "),
+				strings.ReplaceAll(tx, "/", "//"), strings.ReplaceAll(tx, ".", ".."), full.Replace(tx), tx + "#", tx + ";", tx + ",", "knx:" + tx, tx + "/" + tx,
+			}
+			if len(tx) > 1 {
+				wraps = append(wraps, tx[:1]+"_"+tx[1:], tx[:len(tx)-1]+"_"+tx[len(tx)-1:])
+			}
+			for _, w := range wraps {
+				if w == tx {
+					continue
+				}
+				do(c18Case{Kind: "group-parse", Text: w}, true)
+				do(c18Case{Kind: "indiv-parse", Text: w}, true)
+			}
+		}
+		rec.Exhaustive("24 valid address texts x 45 wrappings (quotes, brackets, padding, signs, radix prefixes, digit separators, escaped and doubled separators, full-width digits) through both parsers")
+	}
 	// 4. malformed strings from a grammar
 	common.Drive(t, rec, func(rt *rapid.T) c18Case {
 		c := c18GenMalformed(rt)
